@@ -10,7 +10,7 @@ analysed AST the compiler consumed; after normal completion the core is clean
 from gen import progs, families
 from vlib import core, progstream
 
-MODULES = ["HmsProofs.C01"]  # + "HmsProofs.C01VM" once re-proved against the V26 mangling
+MODULES = ["HmsProofs.C01", "HmsProofs.C01VM"]
 
 CORPUS = [
     # fixed findings (regressions) and hand-written boundary programs; always run first
